@@ -273,12 +273,35 @@ func reproduced(v *sym.Outcome, nr *nativeResult) bool {
 	case "goroutine-leak":
 		return strings.Contains(nr.out, "VERIF-LEAK")
 	case "data-race":
-		return strings.Contains(nr.out, "WARNING: DATA RACE")
+		return raceInLibrary(nr.out)
 	}
 	// The native run is the ground truth: an assertion of the same harness failing on the real
 	// code at the solver's input confirms the violation even when an opaque model (codec bit
 	// streams, hash values) made the engine fail at a neighbouring assertion.
 	return strings.HasPrefix(nr.panicMsg, "VERIF-ASSERT ")
+}
+
+// raceInLibrary: the Go race detector reported a race in which at least one of the two accesses
+// was made by code that is not the harness' own (the top frame of the access is not a zz_verif file).
+func raceInLibrary(out string) bool {
+	lines := strings.Split(out, "\n")
+	for i, l := range lines {
+		t := strings.TrimSpace(l)
+		if !(strings.HasPrefix(t, "Read at ") || strings.HasPrefix(t, "Write at ") || strings.HasPrefix(t, "Previous read at ") || strings.HasPrefix(t, "Previous write at ")) {
+			continue
+		}
+		// the first "file:line" line after the header is the top frame of this access
+		for j := i + 1; j < len(lines) && j < i+4; j++ {
+			f := strings.TrimSpace(lines[j])
+			if strings.Contains(f, ".go:") {
+				if !strings.Contains(f, "zz_verif") {
+					return true
+				}
+				break
+			}
+		}
+	}
+	return false
 }
 
 func (cr *checkRun) matchKnown(prop, harness string, v *sym.Outcome) *knownFinding {
@@ -516,7 +539,7 @@ func runCheck(pd *propDef, tier string, seed int, verifDir, only string, workers
 				for _, o := range wo.Observes {
 					want = append(want, o.Label+"="+strings.Join(o.Vals, ","))
 				}
-				if hd.Race && strings.Contains(nr.out, "WARNING: DATA RACE") {
+				if hd.Race && raceInLibrary(nr.out) {
 					inconclusive = append(inconclusive, fmt.Sprintf("%s: the Go race detector reports a race on a path the engine found race-free (choices %s): %s", hd.Name, wo.Choices, tailStr(nr.out, 600)))
 				} else if !nr.returned || strings.Join(want, "|") != strings.Join(nr.observes, "|") {
 					inconclusive = append(inconclusive, fmt.Sprintf("%s: witness replay disagrees with the engine (choices %s): engine %v native %v panic=%q out=%q", hd.Name, wo.Choices, want, nr.observes, nr.panicMsg, tailStr(nr.out, 300)))
